@@ -2105,132 +2105,150 @@ impl<'store> FindTextSelectionsIter<'store> {
     /// The reference text selection is always in the subject position for the associated [`TextSelectionOperator`] (`operator()`)
     /// The boolean returns the direction of iteration (true = forward, false = backwards)
     fn init_textseliters(&mut self) {
-        match self.operator {
-            TextSelectionOperator::Embeds { .. } => {
-                for reftextselection in self.refset.iter() {
-                    self.textseliters.push((
-                        self.resource
-                            .range(reftextselection.begin(), reftextselection.end()),
-                        true,
-                    ));
-                }
-            }
-            TextSelectionOperator::SameBegin { .. } => {
+        // Each window below must contain every text selection that can possibly be in the
+        // relation with *all* members of the reference set (that is what `refset.test()`
+        // demands), so it is derived from the leftmost begin and the rightmost end of the set.
+        // Forward windows select on the begin position of the candidates, backward windows
+        // on their end position. All bounds are half-open, hence the `+ 1` where the bound
+        // itself is still a valid position.
+        let textlen = self.resource.textlen();
+        let (refbegin, refend) = match (self.refset.begin(), self.refset.end()) {
+            (Some(refbegin), Some(refend)) => (refbegin, refend),
+            _ => {
+                //empty reference set: nothing can match, any window will do
                 self.textseliters.push((
-                    self.resource.range(
-                        self.refset.begin().unwrap(),
-                        self.refset.begin().unwrap() + 1,
-                    ),
+                    self.resource.range(0, textlen.saturating_add(1)),
+                    true,
+                ));
+                return;
+            }
+        };
+        let halfway = textlen / 2;
+        match self.operator {
+            TextSelectionOperator::Embeds { negate: false, .. } => {
+                //candidates begin (and end) inside the reference
+                self.textseliters
+                    .push((self.resource.range(refbegin, refend.saturating_add(1)), true));
+            }
+            TextSelectionOperator::SameBegin { negate: false, .. } => {
+                self.textseliters.push((
+                    self.resource.range(refbegin, refbegin.saturating_add(1)),
                     true,
                 ));
             }
-            TextSelectionOperator::SameEnd { .. } => {
+            TextSelectionOperator::SameEnd { negate: false, .. } => {
                 self.textseliters.push((
-                    self.resource
-                        .range(self.refset.end().unwrap(), self.refset.end().unwrap() + 1),
+                    self.resource.range(refend, refend.saturating_add(1)),
                     false, //search backwards! end must be in range above
                 ));
             }
-            TextSelectionOperator::After { limit, .. } => {
-                //self comes after found items, so find items before self:
-                let begin = if let Some(limit) = limit {
-                    if limit >= self.refset.begin().unwrap() {
-                        0
-                    } else {
-                        self.refset.begin().unwrap() - limit
-                    }
+            TextSelectionOperator::After {
+                negate: false,
+                limit,
+                ..
+            } => {
+                //self comes after found items, so find items that end before self begins:
+                if let Some(limit) = limit {
+                    self.textseliters.push((
+                        self.resource.range(
+                            refbegin.saturating_sub(limit),
+                            refbegin.saturating_add(1),
+                        ),
+                        false, //search backwards!! end must be in range above
+                    ));
                 } else {
-                    0
-                };
-                self.textseliters.push((
-                    self.resource.range(begin, self.refset.begin().unwrap()),
-                    true,
-                ));
+                    self.textseliters
+                        .push((self.resource.range(0, refbegin.saturating_add(1)), true));
+                }
             }
             TextSelectionOperator::Succeeds {
-                allow_whitespace, ..
+                negate: false,
+                allow_whitespace,
+                ..
             } => {
+                //found items end where self begins (or at most WHITESPACE_LIMIT before it)
+                let begin = if allow_whitespace {
+                    refbegin.saturating_sub(WHITESPACE_LIMIT)
+                } else {
+                    refbegin
+                };
                 self.textseliters.push((
-                    self.resource.range(
-                        self.refset.begin().unwrap(),
-                        self.refset.begin().unwrap()
-                            + if allow_whitespace {
-                                WHITESPACE_LIMIT + 1
-                            } else {
-                                1
-                            },
-                    ),
+                    self.resource.range(begin, refbegin.saturating_add(1)),
                     false, //search backwards!! end must be in range above
                 ));
             }
-            TextSelectionOperator::Before { limit, .. } => {
-                //self comes before found items, so find items after self:
+            TextSelectionOperator::Before {
+                negate: false,
+                limit,
+                ..
+            } => {
+                //self comes before found items, so find items that begin after self ends:
                 let end = if let Some(limit) = limit {
-                    self.refset.end().unwrap() + limit
+                    refend.saturating_add(limit).saturating_add(1)
                 } else {
-                    self.resource.textlen()
+                    textlen.saturating_add(1)
                 };
                 self.textseliters
-                    .push((self.resource.range(self.refset.end().unwrap(), end), true));
+                    .push((self.resource.range(refend, end), true));
             }
             TextSelectionOperator::Precedes {
-                allow_whitespace, ..
+                negate: false,
+                allow_whitespace,
+                ..
             } => {
-                self.textseliters.push((
-                    self.resource.range(
-                        self.refset.end().unwrap(),
-                        self.refset.end().unwrap()
-                            + if allow_whitespace {
-                                WHITESPACE_LIMIT + 1
-                            } else {
-                                1
-                            },
-                    ),
-                    true,
-                ));
+                //found items begin where self ends (or at most WHITESPACE_LIMIT after it)
+                let end = if allow_whitespace {
+                    refend.saturating_add(WHITESPACE_LIMIT + 1)
+                } else {
+                    refend.saturating_add(1)
+                };
+                self.textseliters
+                    .push((self.resource.range(refend, end), true));
             }
             TextSelectionOperator::Embedded {
-                limit: Some(limit), ..
+                negate: false,
+                limit,
+                ..
             } => {
-                let halfway = self.resource.textlen() / 2;
-                for reftextselection in self.refset.iter() {
-                    if reftextselection.begin() <= halfway {
-                        let begin = if reftextselection.begin() > limit {
-                            reftextselection.begin() - limit
-                        } else {
-                            0
-                        };
-                        self.textseliters
-                            .push((self.resource.range(begin, reftextselection.end()), true));
+                //found items begin at or before the reference and end at or after it
+                if refbegin <= halfway {
+                    let begin = if let Some(limit) = limit {
+                        refbegin.saturating_sub(limit)
                     } else {
-                        let mut end = reftextselection.end() + limit;
-                        if end > self.resource.textlen() {
-                            end = self.resource.textlen();
-                        }
-                        self.textseliters.push((
-                            self.resource.range(reftextselection.end(), end),
-                            false, //search backwards!!
-                        ));
-                    }
+                        0
+                    };
+                    self.textseliters
+                        .push((self.resource.range(begin, refbegin.saturating_add(1)), true));
+                } else {
+                    let end = if let Some(limit) = limit {
+                        refend.saturating_add(limit).saturating_add(1)
+                    } else {
+                        textlen.saturating_add(1)
+                    };
+                    self.textseliters.push((
+                        self.resource.range(refend, end),
+                        false, //search backwards!!
+                    ));
                 }
             }
-            TextSelectionOperator::Overlaps { .. } | TextSelectionOperator::Embedded { .. } => {
-                let halfway = self.resource.textlen() / 2;
-                for reftextselection in self.refset.iter() {
-                    if reftextselection.begin() <= halfway {
-                        self.textseliters
-                            .push((self.resource.range(0, reftextselection.end()), true));
-                    } else {
-                        self.textseliters.push((
-                            self.resource
-                                .range(reftextselection.end(), self.resource.textlen()),
-                            false, //search backwards!!
-                        ));
-                    }
+            TextSelectionOperator::Overlaps { negate: false, .. } => {
+                //found items begin at or before the reference ends, and end at or after it begins
+                if refbegin <= halfway {
+                    self.textseliters
+                        .push((self.resource.range(0, refend.saturating_add(1)), true));
+                } else {
+                    self.textseliters.push((
+                        self.resource.range(refbegin, textlen.saturating_add(1)),
+                        false, //search backwards!!
+                    ));
                 }
             }
             _ => {
-                self.textseliters.push((self.resource.iter(), true)); //return the maximum slice
+                //all other operators, and all negated ones: return the maximum slice
+                self.textseliters.push((
+                    self.resource.range(0, textlen.saturating_add(1)),
+                    true,
+                ));
             }
         }
     }
